@@ -14,6 +14,7 @@
 (*   fc       ForklessCause(a, b) -> r                                                             *)
 (*   mhb      merged highest-before vector of an event (seq per validator, -1 = fork)              *)
 (*   end      end of an epoch's / scenario's event stream: nothing decidable may be left           *)
+(*   crit     the instance reported a critical error (allowed only in byz runs)                   *)
 (* Process is split into two spec actions (add the event; run the reference election) because      *)
 (* TLC evaluates the election on the state that already contains the new event.                    *)
 EXTENDS Integers, Sequences, FiniteSets, TLC, Json, IOUtils
@@ -208,7 +209,12 @@ End == /\ Is("end") /\ phase = "add"
        /\ (byz \/ AtroposOf(lastDec + 1) = 0)
        /\ l' = l + 1 /\ UNCHANGED <<phase, cons>>
 
-TNext == Reset \/ Process \/ Decide \/ ProcessRejected \/ Build \/ Restart \/ QueryFC \/ QueryMHB \/ End
+\* a critical error of the instance ("more than 1/3W are Byzantine", storage inconsistency): only legitimate when
+\* forkers hold at least one third of the weight
+Crit == /\ Is("crit") /\ phase = "add" /\ byz
+        /\ l' = l + 1 /\ UNCHANGED <<phase, cons>>
+
+TNext == Crit \/ Reset \/ Process \/ Decide \/ ProcessRejected \/ Build \/ Restart \/ QueryFC \/ QueryMHB \/ End
 TSpec == TInit /\ [][TNext]_vars
 
 Mark == TLCSet(1, IF l > TLCGet(1) THEN l ELSE TLCGet(1))
